@@ -205,16 +205,56 @@ Theorem calc_trim_text_generic_spec :
 Proof. exact calc_trim_text_generic. Qed.
 Print Assumptions calc_trim_text_generic_spec.
 
-(* NOT proved: the trimming specification for the double-byte mode on well-formed double-byte text
-   (it would follow from calc_trim_text_generic_spec, within_double_byte_exact and a classification of
-   the positions of a well-formed text; not done) and the length law of trim_text_attr_cs
-   (text, attribute runs and charset runs of the result have the same length): correspondence and
-   oracle only. *)
+(* single-byte ("narrow") mode: one column per byte, nothing can straddle an edge *)
+Theorem calc_trim_text_narrow :
+  forall wcw text a b sc ec, 0 <= a <= b -> 0 <= sc < ec -> ec <= b - a ->
+  calc_trim_text wcw MNarrow text a b sc ec = Ok (a + sc, a + ec, 0, 0).
+Proof. exact calc_trim_text_narrow_spec. Qed.
+Print Assumptions calc_trim_text_narrow.
+
+(* double-byte mode on well-formed double-byte text: the total width is the requested range, the slice
+   starts at the requested column (one later when padded), and each flag is set exactly when that edge
+   falls on the second half of a double-byte character *)
+Theorem calc_trim_text_double_byte :
+  forall wcw cs sc ec, Forall dbchar_ok cs -> 0 <= sc < ec -> ec <= zlen (dbflat cs) ->
+  exists sp ep pl pr,
+    calc_trim_text wcw MWide (dbflat cs) 0 (zlen (dbflat cs)) sc ec = Ok (sp, ep, pl, pr) /\
+    pl + (ep - sp) + pr = ec - sc /\ sp = sc + pl /\ (pl = 0 \/ pl = 1) /\ (pr = 0 \/ pr = 1) /\
+    (pl = 1 <-> within_double_byte (dbflat cs) 0 sc = Ok 2) /\
+    (pr = 1 <-> within_double_byte (dbflat cs) 0 ec = Ok 2).
+Proof. exact calc_trim_text_wide. Qed.
+Print Assumptions calc_trim_text_double_byte.
+
+(* NOT proved in full generality (arbitrary bytes in every mode; correspondence and oracle only): the
+   length law of trim_text_attr_cs - the trimmed text, attribute runs and charset runs have one length. *)
 Definition trim_text_attr_cs_lengths_full : Prop :=
   forall wcw m text attr cs sc ec t a c,
-    rle_len attr = zlen text -> rle_len cs = zlen text -> 0 <= sc < ec ->
+    nn attr -> nn cs -> rle_len attr = zlen text -> rle_len cs = zlen text -> 0 <= sc < ec ->
     trim_text_attr_cs wcw m text attr cs sc ec = Ok (t, a, c) ->
     rle_len a = zlen t /\ rle_len c = zlen t.
+
+(* proved part: whenever calc_trim_text returns a slice inside the text with 0/1 flags (any mode), the
+   trimmed text, attribute runs and charset runs have one length ... *)
+Theorem trim_text_attr_cs_lengths_partial :
+  forall wcw m text (attr cs : rle) sc ec spos epos pl pr,
+  calc_trim_text wcw m text 0 (zlen text) sc ec = Ok (spos, epos, pl, pr) ->
+  0 <= spos <= epos -> epos <= zlen text -> (pl = 0 \/ pl = 1) -> (pr = 0 \/ pr = 1) ->
+  nn attr -> nn cs -> rle_len attr = zlen text -> rle_len cs = zlen text ->
+  exists t a c, trim_text_attr_cs wcw m text attr cs sc ec = Ok (t, a, c) /\
+    zlen t = pl + (epos - spos) + pr /\ rle_len a = zlen t /\ rle_len c = zlen t.
+Proof. exact trim_text_attr_cs_lens. Qed.
+Print Assumptions trim_text_attr_cs_lengths_partial.
+
+(* ... which is the case for the UTF-8 encoding of every text that is wide enough *)
+Theorem trim_text_attr_cs_lengths_utf8 :
+  forall wcw, (forall c, wcw c <= 2) ->
+  forall s (attr cs : rle) sc ec wl,
+  scalars s -> 0 <= sc < ec -> calc_width wcw MStr s 0 (zlen s) = Ok wl -> ec <= wl ->
+  nn attr -> nn cs -> rle_len attr = zlen (encs s) -> rle_len cs = zlen (encs s) ->
+  exists t a c, trim_text_attr_cs wcw MUtf8 (encs s) attr cs sc ec = Ok (t, a, c) /\
+                rle_len a = zlen t /\ rle_len c = zlen t.
+Proof. exact top_trim_text_attr_cs_utf8. Qed.
+Print Assumptions trim_text_attr_cs_lengths_utf8.
 
 (* ================= run-length lists ================= *)
 Theorem rle_subseg_length :
@@ -236,10 +276,12 @@ Theorem rle_modify_lengths :
 Proof. exact top_rle_modify. Qed.
 Print Assumptions rle_modify_lengths.
 
-(* NOT proved (correspondence + oracle only): rle_product covers min(len rle1, len rle2). *)
-Definition rle_product_len_full : Prop :=
-  forall x y p, Forall (fun q => 0 < snd q) x -> Forall (fun q => 0 < snd q) y ->
-    rle_product x y = Ok p -> rle_len p = Z.min (rle_len x) (rle_len y).
+(* rle_product never fails on positive runs and covers the shorter of the two lists *)
+Theorem rle_product_length :
+  forall x y, pos_runs x -> pos_runs y ->
+  exists p, rle_product x y = Ok p /\ rle_len p = Z.min (rle_len x) (rle_len y).
+Proof. exact rle_product_len. Qed.
+Print Assumptions rle_product_length.
 
 (* ================= clause 5: encoding text for output =================
    For EVERY codec [enc], flag and text (and for every byte string given directly): the charset run
@@ -260,15 +302,24 @@ Theorem target_encoding_dec :
 Proof. exact target_encoding_dec_char. Qed.
 Print Assumptions target_encoding_dec.
 
-(* PARTIAL: the statement for a DEC character inside an arbitrary string (each DEC character of s maps
-   to its alternate byte, all other characters to enc c, and the "0" runs mark exactly the DEC
-   positions) is stated and decided by the correspondence and the oracle only. *)
-Fixpoint expand_runs (r : rle) : list oz :=
-  match r with [] => [] | (a, n) :: t => repeat a (Z.to_nat n) ++ expand_runs t end.
-Definition target_encoding_dec_full : Prop :=
-  forall enc s,
-    (forall c, 0 <= c < 128 -> enc c = [c]) ->
-    (forall c b, In b (enc c) -> b <> esc_SO /\ b <> esc_SI) ->
+(* the bytes part for EVERY bracketed byte string  p0 SO d1 SI p1 SO d2 SI p2 ...  (p_i, d_i free of
+   SO/SI): the shifts are removed, the bytes of each d_i lie under DEC_TAG runs and the bytes of each
+   p_i under None runs (runs compared after expansion, because adjacent equal runs are merged) *)
+Theorem target_encoding_bracketed_runs :
+  forall p0 bl, plain p0 -> Forall block_ok bl ->
+  fst (ate_bytes (blocks_bytes p0 bl)) = p0 ++ flat_map block_out bl /\
+  expand_runs (snd (ate_bytes (blocks_bytes p0 bl))) = repeat None (length p0) ++ flat_map block_marks bl.
+Proof. exact ate_bytes_blocks. Qed.
+Print Assumptions target_encoding_bracketed_runs.
+
+(* end to end, EVERY string without raw SO/SI characters, every codec that leaves ASCII alone and does
+   not produce SO/SI bytes for the characters of the string: each DEC character maps to its alternate
+   byte, every other character to its encoding, and (after expanding the runs) exactly the DEC positions
+   carry DEC_TAG *)
+Theorem target_encoding_dec_string :
+  forall enc, (forall c, 0 <= c < 128 -> enc c = [c]) ->
+  forall s,
+    (forall c b, In c s -> In b (enc c) -> b <> esc_SO /\ b <> esc_SI) ->
     ~ In esc_SO s -> ~ In esc_SI s ->
     fst (apply_target_encoding enc true s)
       = flat_map (fun c => match dec_alt c with Some a => [a] | None => enc c end) s /\
@@ -276,6 +327,8 @@ Definition target_encoding_dec_full : Prop :=
       = flat_map (fun c => match dec_alt c with
                            | Some _ => [Some esc_DEC_TAG]
                            | None => repeat None (length (enc c)) end) s.
+Proof. exact RleProofs.target_encoding_dec_string. Qed.
+Print Assumptions target_encoding_dec_string.
 
 (* ================= the dumped width table meets the hypothesis of the theorems above ================= *)
 Theorem width_table_bounded : forall c, wcwidth_tab c <= 2.
